@@ -113,6 +113,18 @@ CHECKS = [
               'named by the property; molecules where the aromaticity models or RDKit sanitisation rewrite the structure are '
               'skipped and counted.',
          technique='round-trip and differential property-based testing against RDKit'),
+    dict(id='C11',
+         text='Generated records (1-4 Kekule molecules or a reaction with 0-2 molecules per role; charges, isotopes, radicals, aromatic '
+              'and coordinate bonds, titles, metadata over printable text incl. < > & and multi-line values; RDKit or clean2d layout) '
+              'are written by the five writers and read back: atom order/numbers, atoms, bonds, roles, title, metadata, tetrahedral '
+              'and (where the layout encodes it) cis/trans configuration; the V2000 block is read by RDKit (wedge convention); '
+              'RDKit-written V2000/V3000 blocks of corpus molecules are read; one record of a multi-record file is damaged in '
+              'three ways; random access on disk equals sequential reading; repository files give the delimiter-counted number '
+              'of records.',
+         note='Trusted: RDKit mol block reader/writer as the independent program (drug-like closed-shell molecules only); stereo is '
+              'asserted only where the 2D layout can encode it (non-degenerate wedges, cis/trans reproduced from coordinates) and for '
+              'centres without explicit hydrogens.',
+         technique='round-trip property-based testing with fault injection (damaged records) and RDKit differential'),
     dict(id='C12',
          text='(1) exhaustive permutation sweep on every labelled centre of generated molecules: all 24/6 neighbour orderings (explicit '
               'and implicit hydrogen), all substituent pairs of double bonds and allenes, checked against permutation parity; setters '
